@@ -1,5 +1,5 @@
 //@ unit U-IMS
-//@ props C05
+//@ props C05 C11
 //@ verus-args --rlimit 100
 #![feature(allocator_api)]
 #![allow(non_snake_case, unused)]
@@ -20,7 +20,16 @@ pub type Result<T> = std::result::Result<T, MDBShardError>;
 // BTreeMap: vstd's own specification (std_specs/btree.rs) is used; nothing in C05 depends on `cas_content` /
 // `file_content` (the query reads `chunk_hash_lookup` only).
 // stub for the file half of the shard (not touched by the functions under proof)
-pub struct MDBFileInfo { pub x: u8 }
+//@ extract mdb_shard/src/file_structs.rs struct FileDataSequenceHeader
+//@ end
+// file record: only the header's `file_hash` (the key) and the serialized size are used here
+struct MDBFileInfo { metadata: FileDataSequenceHeader, x: u8 }
+uninterp spec fn spec_file_num_bytes(f: MDBFileInfo) -> u64;
+impl MDBFileInfo {
+    // `size_of::<FileDataSequenceHeader>() + num_info_entry_following() * MDB_FILE_INFO_ENTRY_SIZE`: serialized size, opaque here
+    #[verifier::external_body]
+    fn num_bytes(&self) -> (r: u64) ensures r == spec_file_num_bytes(*self) { unimplemented!() }
+}
 
 //@ extract mdb_shard/src/cas_structs.rs struct CASChunkSequenceHeader
 //@ end
@@ -67,6 +76,8 @@ proof fn lemma_sum_ext(t: Seq<CASChunkSequenceEntry>, u: Seq<CASChunkSequenceEnt
 }
 
 //@ include prelude/ims_vocab.rs
+//@ include prelude/sess_btree.rs
+//@ include prelude/sess_ims_post.rs
 
 // outline (R7): `chunks.iter().map(|sb| sb.unpacked_segment_bytes).sum()` — iterator chain, not parseable by Verus.
 // The body is that expression; the contract is assumed: u32 `Sum` is the arithmetic sum when it does not overflow
@@ -125,32 +136,64 @@ impl MDBInMemoryShard {
 //@ contract
         requires
             old(self).wf(),
+            size_inv(*old(self)),
             cas_fits(cas_block_contents),
             // shard-size bookkeeping (not part of C05): the running byte count does not overflow u64
             old(self).current_shard_file_size + 64 * cas_block_contents.chunks@.len() + 60 <= u64::MAX,
         ensures
             /*@C05*/ final(self).wf(),
-            // the whole abstract view of the lookup after the call: every chunk hash of the block now maps into the block
-            // (last occurrence wins), everything else is unchanged
-            /*@C05*/ forall|h: MerkleHash| #[trigger] final(self).chunk_hash_lookup@.contains_key(h) <==>
-                (old(self).chunk_hash_lookup@.contains_key(h) || exists|i: int| 0 <= i < cas_block_contents.chunks@.len() && #[trigger] cas_block_contents.chunks@[i].chunk_hash == h),
-            /*@C05*/ forall|h: MerkleHash| (forall|i: int| 0 <= i < cas_block_contents.chunks@.len() ==> #[trigger] cas_block_contents.chunks@[i].chunk_hash != h)
-                && old(self).chunk_hash_lookup@.contains_key(h) ==> #[trigger] final(self).chunk_hash_lookup@[h] == old(self).chunk_hash_lookup@[h],
-            /*@C05*/ forall|i: int| 0 <= i < cas_block_contents.chunks@.len() ==>
-                *(#[trigger] final(self).chunk_hash_lookup@[cas_block_contents.chunks@[i].chunk_hash]).0 == cas_block_contents,
+            // the whole abstract view after the call (prelude/sess_ims_post.rs, shared with U-SESSSHARD): xorb map, lookup, frame, size
+            /*@C05,C11*/ ims_add_cas_post(*old(self), *final(self), cas_block_contents),
             r is Ok,
+//@ body-start
+        broadcast use {mh_cmp_axioms::axiom_merklehash_cmp_model, vstd::std_specs::btree::group_btree_axioms};
+        let ghost ocas = old(self).cas_content@; let ghost ofile = old(self).file_content@; let ghost hh = cas_block_contents.metadata.cas_hash;
+        let ghost sub: int = if ocas.contains_key(hh) { cas_rec_size(ocas[hh]) } else { 0 };
+        proof {
+            // the accounting invariant bounds the counter from below by the size of any stored block: the subtraction cannot underflow
+            if ocas.contains_key(hh) { lemma_total_remove(ocas, cas_size_fn(), hh); }
+            lemma_total_nonneg(ocas.remove(hh), cas_size_fn()); lemma_total_nonneg(ofile, file_size_fn());
+        }
 //@ loop 1
             invariant
+                sub == (if ocas.contains_key(hh) { cas_rec_size(ocas[hh]) } else { 0 }), 0 <= sub <= old(self).current_shard_file_size,
+                ocas == old(self).cas_content@, ofile == old(self).file_content@, hh == cas_block_contents.metadata.cas_hash,
+                size_inv(*old(self)),
                 *dest_content_v == cas_block_contents,
                 cas_fits(cas_block_contents),
                 self.wf(),
-                self.current_shard_file_size == old(self).current_shard_file_size + 16 * i,
+                self.current_shard_file_size == old(self).current_shard_file_size - sub + 16 * i,
                 old(self).current_shard_file_size + 64 * cas_block_contents.chunks@.len() + 60 <= u64::MAX,
                 forall|h: MerkleHash| #[trigger] self.chunk_hash_lookup@.contains_key(h) <==>
                     (old(self).chunk_hash_lookup@.contains_key(h) || exists|j: int| 0 <= j < i && #[trigger] cas_block_contents.chunks@[j].chunk_hash == h),
                 forall|h: MerkleHash| (forall|j: int| 0 <= j < i ==> #[trigger] cas_block_contents.chunks@[j].chunk_hash != h)
                     && old(self).chunk_hash_lookup@.contains_key(h) ==> #[trigger] self.chunk_hash_lookup@[h] == old(self).chunk_hash_lookup@[h],
                 forall|j: int| 0 <= j < i ==> *(#[trigger] self.chunk_hash_lookup@[cas_block_contents.chunks@[j].chunk_hash]).0 == cas_block_contents,
+                forall|j: int| 0 <= j < i ==> last_occ(cas_block_contents.chunks@, i as int, (#[trigger] cas_block_contents.chunks@[j]).chunk_hash,
+                                                        self.chunk_hash_lookup@[cas_block_contents.chunks@[j].chunk_hash].1 as int),
+                self.file_content@ == old(self).file_content@,
+                self.cas_content@ == old(self).cas_content@.insert(cas_block_contents.metadata.cas_hash, dest_content_v),
+//@ before `Ok(())`
+        proof {
+            lemma_total_insert(ocas, cas_size_fn(), hh, dest_content_v);
+            assert(ocas.dom().finite());
+        }
+//@ end
+
+//@ extract mdb_shard/src/shard_in_memory.rs in `impl MDBInMemoryShard` fn add_file_reconstruction_info
+//@ ret r
+//@ contract
+        requires size_inv(*old(self)), old(self).current_shard_file_size + spec_file_num_bytes(file_info) + 12 <= u64::MAX,
+        ensures /*@C11*/ ims_add_file_post(*old(self), *final(self), file_info), r is Ok,
+//@ body-start
+        broadcast use {mh_cmp_axioms::axiom_merklehash_cmp_model, vstd::std_specs::btree::group_btree_axioms};
+        let ghost ocas = old(self).cas_content@; let ghost ofile = old(self).file_content@; let ghost fh = file_info.metadata.file_hash;
+        let ghost fi = file_info;
+        proof {
+            if ofile.contains_key(fh) { lemma_total_remove(ofile, file_size_fn(), fh); }
+            lemma_total_nonneg(ofile.remove(fh), file_size_fn()); lemma_total_nonneg(ocas, cas_size_fn());
+            lemma_total_insert(ofile, file_size_fn(), fh, fi);
+        }
 //@ end
 
 //@ extract mdb_shard/src/shard_in_memory.rs in `impl MDBInMemoryShard` fn chunk_hash_dedup_query
